@@ -4,27 +4,64 @@
 // Comment-only: this file adds no code to the package.
 package hmac
 
-// The HMAC layer is not yet verified: the engine has no model of writes through array slices
-// (copy(signingKey[:], secret)). These contracts are TRUSTED (listed in every evidence file that uses them).
-// hmacsig(t): the part of t after the dot (what storage is keyed by); authentic(s, t): t's random part
-// authenticates against its signature part under a secret configured for s; hmacstr(s, x): base64 of the MAC of x.
+// The configured secrets are functions of the configuration object (assumption: they do not change during a call).
+//@ spec func gsecret(p any) []byte
+//@ spec func gsecret_err(p any) error
+//@ spec func rsecrets(p any) [][]byte
+//@ spec func rsecrets_err(p any) error
+//@ interface fosite.GlobalSecretProvider.GetGlobalSecret
+//@   ensures result == gsecret(recv) && err == gsecret_err(recv)
+//@ interface fosite.RotatedGlobalSecretsProvider.GetRotatedGlobalSecrets
+//@   ensures result == rsecrets(recv) && err == rsecrets_err(recv)
+
+// hmacsig(t): the part of t after the dot (what storage is keyed by).
+// mac_of(s, key, data): the MAC this strategy computes: HMAC (configured hash constructor, SHA-512/256 by default) keyed with
+// the first 32 bytes of key.  validates(s, key, t): t is "k.sig" with both parts base64url, and the COMPLETE decoded
+// signature equals the MAC of the decoded k.  authentic(s, t): validates under the global secret or a rotated one.
 //@ spec func hmacsig(token string) string
-//@ spec func authentic(s *HMACStrategy, token string) bool
+//@ spec func hasher_of(s *HMACStrategy) any = (s.Config.GetHMACHasher(nil) == nil) ? sha512.New512_256 : s.Config.GetHMACHasher(nil)
+//@ spec func mac_of(s *HMACStrategy, key []byte, data []byte) []byte = hmacsum(hasher_of(s), padcopy(key, 32), bcat(nobytes(), data), nilbytes())
+//@ spec func validates(s *HMACStrategy, key []byte, token string) bool = len(key) >= 32 && cut_ok(token, ".") && cut_before(token, ".") != "" && cut_after(token, ".") != "" && b64dec_ok(b64, cut_after(token, ".")) && b64dec_ok(b64, cut_before(token, ".")) && str(mac_of(s, key, b64dec(b64, cut_before(token, ".")))) == str(b64dec(b64, cut_after(token, ".")))
+//@ spec func opaque authentic(s *HMACStrategy, token string) bool = exists key []byte :: ((len(gsecret(s.Config)) > 0 && key == gsecret(s.Config)) || (exists k int :: 0 <= k && k < len(rsecrets(s.Config)) && key == rsecrets(s.Config)[k])) && validates(s, key, token)
 //@ spec func hmacstr(s *HMACStrategy, text string) string
+
+//@ func (*HMACStrategy).generateHMAC
+//@   requires c != nil && key != nil
+//@   modifies hash_data, is_hash, is_hmac, hmac_key, hmac_fn
+//@   ensures [C06.mac-is-hmac-of-data] result == hmacsum(hasher_of(c), key[:], bcat(nobytes(), data), nilbytes())
+
+// validate: accepted exactly when the token validates under this secret; a wrong MAC is ErrTokenSignatureMismatch.
+//@ func (*HMACStrategy).validate
+//@   requires c != nil
+//@   modifies hash_data, is_hash, is_hmac, hmac_key, hmac_fn
+//@   ensures [C06.mac-verified-in-full] (err == nil) == validates(c, secret, token)
+//@   ensures [C06.mismatch-classified] err != nil && len(secret) >= 32 && cut_ok(token, ".") && cut_before(token, ".") != "" && cut_after(token, ".") != "" && b64dec_ok(b64, cut_after(token, ".")) && b64dec_ok(b64, cut_before(token, ".")) ==> eis(err, fosite.ErrTokenSignatureMismatch)
 
 //@ func (*HMACStrategy).Signature(s, token)
 //@   trusted
 //@   pure
 //@   ensures result == hmacsig(token)
 
+// Validate: accepted only if the token validates under the configured global secret or one of the rotated secrets.
 //@ func (*HMACStrategy).Validate
-//@   trusted
-//@   ensures err == nil ==> authentic(c, token)
+//@   requires c != nil
+//@   modifies hash_data, is_hash, is_hmac, hmac_key, hmac_fn
+//@   ensures [C06.accepted-only-if-authentic] err == nil ==> authentic(c, token)
+//@   invariant loop#1 [C06.accepted-only-if-authentic] $i <= len(keys) && ($i == 0 || err != nil) && (forall j int :: 0 <= j && j < len(keys) ==> (len(gsecret(c.Config)) > 0 && keys[j] == gsecret(c.Config)) || (exists k int :: 0 <= k && k < len(rsecrets(c.Config)) && keys[j] == rsecrets(c.Config)[k]))
 
+// Generate: functional result assumed (base64 / string formatting are not modelled); proved: the whole computation runs
+// under the strategy's mutex and the mutex is released on every exit.
 //@ func (*HMACStrategy).Generate
-//@   trusted
-//@   ensures result2 == nil ==> result0 != "" && result1 != "" && result1 == hmacsig(result0) && authentic(c, result0)
-//@   ensures result2 != nil ==> result0 == "" && result1 == ""
+//@   requires c != nil && held[addr(c.Mutex)] == 0 && (forall m2 V :: held[m2] != 0 ==> mrank(m2) < mrank(addr(c.Mutex)))
+//@   modifies held, hash_data, is_hash, is_hmac, hmac_key, hmac_fn
+//@   assume result2 == nil ==> result0 != "" && result1 != "" && result1 == hmacsig(result0) && authentic(c, result0)
+//@   assume result2 != nil ==> result0 == "" && result1 == ""
+//@   assert @call(RandomBytes)#1 [C19.hmac-generate-under-lock] held[addr(c.Mutex)] == 2
+//@   assert @call(generateHMAC)#1 [C19.hmac-generate-under-lock] held[addr(c.Mutex)] == 2
+//@   assert @call(EncodeToString)#1 [C19.hmac-generate-under-lock] held[addr(c.Mutex)] == 2
+//@   assert @call(EncodeToString)#2 [C19.hmac-generate-under-lock] held[addr(c.Mutex)] == 2
+//@   assert @call(Sprintf)#1 [C19.hmac-generate-under-lock] held[addr(c.Mutex)] == 2
+//@   ensures [C19.locks-released] held == old(held)
 
 //@ func (*HMACStrategy).GenerateHMACForString
 //@   trusted
